@@ -18,9 +18,9 @@ impl Monitor for C08 {
             gen("linkadr-sweep", 9 * 16 * 16 * 8 * tier.pick(1, 12, 0)),
             gen("rxparam-sweep", 9 * 256 * tier.pick(2, 20, 0)),
             gen("newchannel-sweep", 7 * 256 * tier.pick(3, 30, 0)),
-            gen("single", tier.pick(30_000, 2_000_000, 20)),
-            gen("multi", tier.pick(30_000, 3_000_000, 20)),
-            gen("sticky", tier.pick(6_000, 300_000, 6)),
+            gen("single", tier.pick(30_000, 8_000_000, 20)),
+            gen("multi", tier.pick(30_000, 10_000_000, 20)),
+            gen("sticky", tier.pick(6_000, 1_000_000, 6)),
         ]
     }
     fn rule(&self) -> String {
